@@ -72,15 +72,15 @@ pub fn gen_case(rng: &mut Rng, idx: usize, thorough: bool) -> Value {
         let fams = lark_families();
         let (g, t, sl) = &fams[(idx / 4) % fams.len()];
         let slices = match sl { Some(v) => json!(v), None => json!(SlicedBiasComputer::general_slices()) };
-        return json!({"grammar": g.to_json(), "texts": t.iter().map(|s| vocab::hex(s.as_bytes())).collect::<Vec<_>>(), "slices": slices, "seed": rng.next() % 1_000_000_000, "steps": steps});
+        return json!({"grammar": g.to_json(), "texts": t.iter().map(|s| vocab::hex(s.as_bytes())).collect::<Vec<_>>(), "slices": slices, "canonical": idx % 7 < 3, "seed": rng.next() % 1_000_000_000, "steps": steps});
     }
     if idx % 2 == 0 {
         let fams = json_families();
         let (g, t) = &fams[(idx / 2) % fams.len()];
-        return json!({"grammar": {"json_schema": g}, "texts": t.iter().map(|s| vocab::hex(s.as_bytes())).collect::<Vec<_>>(), "slices": slices, "seed": rng.next() % 1_000_000_000, "steps": steps});
+        return json!({"grammar": {"json_schema": g}, "texts": t.iter().map(|s| vocab::hex(s.as_bytes())).collect::<Vec<_>>(), "slices": slices, "canonical": idx % 7 < 3, "seed": rng.next() % 1_000_000_000, "steps": steps});
     }
     let (g, texts) = eng::gen_grammar(rng, idx);
-    json!({"grammar": g.to_json(), "texts": texts.iter().map(|t| vocab::hex(t)).collect::<Vec<_>>(), "slices": slices, "seed": rng.next() % 1_000_000_000, "steps": steps})
+    json!({"grammar": g.to_json(), "texts": texts.iter().map(|t| vocab::hex(t)).collect::<Vec<_>>(), "slices": slices, "canonical": idx % 7 < 3, "seed": rng.next() % 1_000_000_000, "steps": steps})
 }
 
 /// masks are sent without the ids of empty vocabulary entries (a trie never holds them)
@@ -110,8 +110,10 @@ pub fn run_case(_ctx: &Ctx, case: &Value, tag: usize, rep: &mut Report, mb: &mut
     let steps = case["steps"].as_u64().unwrap() as usize;
     // vocabulary rich in string-interior tokens
     let (words, eos) = vocab::synth_words(&mut rng, &texts, 120, None);
-    let Ok(w_plain) = World::new(words.clone(), eos, false, None) else { rep.skip("world"); return; };
-    let w_sliced = match World::new(words, eos, false, Some(&slices)) {
+    // canonical tokenizers too: grammar-forced text then leaves a healing prefix pending, which the slicer must respect
+    let canonical = case["canonical"].as_bool().unwrap_or(false);
+    let Ok(w_plain) = World::new(words.clone(), eos, canonical, None) else { rep.skip("world"); return; };
+    let w_sliced = match World::new(words, eos, canonical, Some(&slices)) {
         Ok(w) => w,
         Err(e) => { rep.skip(&format!("slices-rejected:{}", eng::err_class(&e.to_string()))); return; }
     };
